@@ -12,13 +12,16 @@ open RV.MD5 (md5)
 open RV.Server
 
 inductive Cmd where
-  | S (i : Nat) | s (i : Nat) | D (i peer : Nat) (d : Bytes) | d (t : Nat) | F (t : Nat) (code : Nat)
-  | X (j : Nat) | x (j : Nat) | C (j : Nat) | W (j : Nat) | e (i : Nat) | Z
+  | S (i conn : Nat) | s (i : Nat) | D (conn peer : Nat) (d : Bytes) | d (t : Nat) | F (t : Nat) (code : Nat)
+  | X (j : Nat) | x (j : Nat) | C (j : Nat) | W (j : Nat) | e (conn : Nat) | f (conn : Nat) (k : ReadErrKind) | Z
 
 def parseCmd (c : String) : Option Cmd :=
   let arg := (c.drop 1).toString
   match c.toList.head? with
-  | some 'S' => arg.toNat?.map .S
+  | some 'S' => arg.toNat?.map fun i => .S i i
+  | some 'T' => match arg.splitOn ":" with
+      | [i, c] => do pure (.S (← i.toNat?) (← c.toNat?))
+      | _ => none
   | some 's' => arg.toNat?.map .s
   | some 'D' => match arg.splitOn ":" with
       | [i, p, h] => do pure (.D (← i.toNat?) (← p.toNat?) (← unhex h))
@@ -33,6 +36,11 @@ def parseCmd (c : String) : Option Cmd :=
   | some 'C' => arg.toNat?.map .C
   | some 'W' => arg.toNat?.map .W
   | some 'e' => arg.toNat?.map .e
+  | some 'f' => match arg.splitOn ":" with
+      | [c, "nontemp"] => c.toNat?.map (.f · .nonTemporary)
+      | [c, "temp"] => c.toNat?.map (.f · .other)
+      | [c, "plain"] => c.toNat?.map (.f · .other)
+      | _ => none
   | some 'Z' => if arg.isEmpty then some .Z else none
   | _ => none
 
@@ -60,16 +68,39 @@ structure IState where
   stage : List DownStage
   cancelable : List Bool
 
-def handlerObs (peer : Nat) (p : Packet) (serve : Nat) : String :=
-  s!"handler:peer{peer}:{p.id.toNat}:{p.code}:{showAttrs p.attrs}:{hexOf p.secret}:local{serve}:ctx=true"
+def handlerObs (peer : Nat) (p : Packet) (conn : Nat) : String :=
+  s!"handler:peer{peer}:{p.id.toNat}:{p.code}:{showAttrs p.attrs}:{hexOf p.secret}:local{conn}:ctx=true"
 
 /-- reply written by the handler for task `t`: `conn>addr:conn:auth:code`, or nothing when Encode refuses -/
-def replyObs (serve peer : Nat) (req : Packet) (reqWire : Bytes) (code : Nat) : String :=
+def replyObs (conn peer : Nat) (req : Packet) (reqWire : Bytes) (code : Nat) : String :=
   if code = 0 then "" else
   let resp : Packet := { response req code with attrs := [⟨18, "reply".toUTF8.toList⟩] }
   match encode md5 resp with
-  | .ok w => s!":{serve}>peer{peer}:conn{serve}:auth={boolStr (isAuthenticResponse md5 w reqWire req.secret)}:code={(w.getD 0 0).toNat}"
+  | .ok w => s!":{conn}>peer{peer}:conn{conn}:auth={boolStr (isAuthenticResponse md5 w reqWire req.secret)}:code={(w.getD 0 0).toNat}"
   | _ => ""
+
+/-- the number after `@` in an observation like `f=err@1` -/
+def atServe (tok : String) : Option Nat :=
+  match tok.splitOn "@" with
+  | [_, i] => i.toNat?
+  | _ => none
+
+/-- what the oracle has seen so far, from the implementation's observations only -/
+structure Seen where
+  connOf : List (Nat × Nat) := []      -- Serve call ↦ conn, for calls that registered
+  entered : List Nat := []             -- Serve calls that registered a listener
+  reading : List Nat := []             -- … that reached ReadFrom and have not returned
+  returned : List Nat := []
+  asked : List Nat := []
+  running : List Nat := []
+  sdReq : Bool := false
+  nilSeen : Bool := false
+  cancelled : List Nat := []
+  inflight : List (Nat × Nat × Nat) := []
+  dg : List (Nat × Nat × Nat × Bytes) := []   -- task ↦ (Serve call, conn, peer, datagram)
+
+def Seen.readersOn (w : Seen) (c : Nat) : List Nat :=
+  (w.reading.filter fun i => (w.connOf.lookup i) == some c).mergeSort (· ≤ ·)
 
 def scenarioCase (args : List String) (impl : String) : Verdict :=
   match args with
@@ -77,8 +108,15 @@ def scenarioCase (args : List String) (impl : String) : Verdict :=
     match parseSecrets secrets, (cmds.splitOn ",").mapM parseCmd with
     | some tbl, some cmds =>
       let cfg : Cfg := { variant := .fixed, skipVerify := skip == "1", secretOf := secretFn tbl }
-      let nS := 4
+      let nS := 8
       let nD := 4
+      let nC := 4
+      -- Serve call i ↦ the conn of the first S/T command naming it
+      let conns : List Nat := (List.range nS).map fun i =>
+        match cmds.findSome? (fun c => match c with | .S j c => if j == i then some c else none | _ => none) with
+        | some c => c
+        | none => 0
+      if conns.any (· ≥ nC) then bad "scenario-conn" else
       let implToks := impl.splitOn " "
       -- ------------------------------------------------ model run
       let rec go (is : IState) (cmds : List Cmd) (itoks : List String) (dgrams : List (Nat × Nat × Bytes)) (acc : List String) : List String :=
@@ -88,9 +126,11 @@ def scenarioCase (args : List String) (impl : String) : Verdict :=
           let itok := itoks.headD ""
           let next (is : IState) (o : String) (dg := dgrams) := go is rest itoks.tail dg (o :: acc)
           let s := is.st
+          let readers (c : Nat) : List Nat := (List.range nS).filter fun i =>
+            s.serves[i]? == some .running && !(is.parked.getD i false) && s.connOf.getD i 0 == c
           match c with
-          | .S i =>
-            if i ≥ nS then next is "S=noop" else
+          | .S i cn =>
+            if i ≥ nS ∨ conns.getD i 0 ≠ cn then next is "S=noop" else
             (match s.serves[i]? with
              | some .notStarted =>
                (match step md5 cfg s (.serveEnter i) with
@@ -103,19 +143,22 @@ def scenarioCase (args : List String) (impl : String) : Verdict :=
               let s' := (step md5 cfg s (.serveCount i)).getD s
               next { is with st := s', parked := is.parked.set i false } "s=reading"
             else next is "s=noop"
-          | .D i peer d =>
-            if i < nS ∧ s.serves[i]? == some .running ∧ !(is.parked.getD i false) ∧ s.connClosed.getD i 0 == 0 then
-              (match step md5 cfg s (.serveRecv i peer d) with
-               | some s' => go { is with st := s' } rest itoks.tail (dgrams ++ [(i, peer, d)]) ("D=asked" :: acc)
-               | none => next is "D=noop")
-            else next is "D=noop"
+          | .D cn peer d =>
+            (match readers cn with
+             | [i] =>
+               if s.connClosed.getD cn 0 == 0 then
+                 (match step md5 cfg s (.serveRecv i peer d) with
+                  | some s' => go { is with st := s' } rest itoks.tail (dgrams ++ [(i, peer, d)]) ("D=asked" :: acc)
+                  | none => next is "D=noop")
+               else next is "D=noop"
+             | _ => next is "D=noop")
           | .d t =>
             (match s.tasks[t]? with
              | some ⟨i, .spawned fate⟩ =>
                (match step md5 cfg s (.taskRun t) with
                 | some s' =>
                   (match s'.tasks[t]?, fate with
-                   | some ⟨_, .inHandler _⟩, .handle (peer, _) p => next { is with st := s' } ("d=" ++ handlerObs peer p i)
+                   | some ⟨_, .inHandler _⟩, .handle (peer, _) p => next { is with st := s' } ("d=" ++ handlerObs peer p (s.connOf.getD i 0))
                    | _, _ => next { is with st := s' } "d=dropped")
                 | none => next is "d=noop")
              | _ => next is "d=noop")
@@ -127,7 +170,7 @@ def scenarioCase (args : List String) (impl : String) : Verdict :=
                   let req := match classify md5 cfg peer d with
                     | .handle _ p => p
                     | _ => ⟨0, 0, [], [], []⟩
-                  next { is with st := s' } ("F=done" ++ replyObs i peer req d code)
+                  next { is with st := s' } ("F=done" ++ replyObs (s.connOf.getD i 0) peer req d code)
                 | _, _ => next is "F=noop")
              | _ => next is "F=noop")
           | .X j =>
@@ -159,100 +202,121 @@ def scenarioCase (args : List String) (impl : String) : Verdict :=
                  let lbl := if r == "nil" then Label.downReturnNil j else Label.downReturnCtx j
                  next { is with st := (step md5 cfg s lbl).getD s, stage := is.stage.set j (.returned r) } s!"W={r}"
              | _ => next is "W=noop")
-          | .e i =>
-            if i < nS ∧ s.serves[i]? == some .running ∧ !(is.parked.getD i false) ∧ s.connClosed.getD i 0 > 0 then
-              (match step md5 cfg s (.serveReadErr i) with
-               | some s' => next { is with st := s' } (if s'.closes ≥ 2 ∧ s.closes < 2 then "e=PANIC(close of closed channel)" else "e=shutdown")
-               | none => next is "e=noop")
-            else next is "e=noop"
+          | .e cn =>
+            let rs := readers cn
+            if rs.isEmpty ∨ s.connClosed.getD cn 0 == 0 then next is "e=noop" else
+            -- the read of every Serve call on this conn fails
+            let (s', outs) := rs.foldl (fun (acc : St × List String) i =>
+              match step md5 cfg acc.1 (.serveReadErr i) with
+              | some s' => (s', acc.2 ++ [if s'.closes ≥ 2 ∧ acc.1.closes < 2 then "PANIC(close of closed channel)" else "shutdown"])
+              | none => (acc.1, acc.2 ++ ["stuck"])) (s, [])
+            next { is with st := s' } ("e=" ++ "+".intercalate outs)
+          | .f cn k =>
+            (match readers cn with
+             | [] => next is "f=noop"
+             | r0 :: rs =>
+               -- which of the readers receives the failure is the environment's choice: follow the implementation
+               let i := match atServe itok with
+                 | some i => if (r0 :: rs).contains i then i else r0
+                 | none => r0
+               (match step md5 cfg s (.serveReadFail i k) with
+                | some s' =>
+                  (match s'.serves[i]? with
+                   | some (.returned .errShutdown) => next { is with st := s' } s!"f=shutdown@{i}"
+                   | some (.returned .readError) => next { is with st := s' } s!"f=err@{i}"
+                   | _ => next { is with st := s' } "f=retry")
+                | none => next is "f=noop"))
           | .Z => next is "Z=clean"
-      let is0 : IState := ⟨init nS nD, List.replicate nS false, List.replicate nD .none, List.replicate nD false⟩
+      let is0 : IState := ⟨initWith conns nD, List.replicate nS false, List.replicate nD .none, List.replicate nD false⟩
       let model := " ".intercalate (go is0 cmds implToks [] [])
       -- ------------------------------------------------ the statements, on the implementation's observations
       let bad := implToks.any fun t => (t.splitOn "PANIC").length > 1 || (t.splitOn "CRASH").length > 1 || (t.splitOn "HANG").length > 1 || (t.splitOn "RACE").length > 1
       -- replay the observations
-      let rec walk (cmds : List Cmd) (toks : List String)
-          (entered returned : List Nat) (asked running : List Nat) (sdReq : Bool) (nilSeen : Bool) (cancelled : List Nat)
-          (inflight : List (Nat × Nat × Nat)) (dg : List (Nat × Nat × Bytes)) (taskOfDg : Nat)
-          : List (String × Bool) :=
+      let rec walk (cmds : List Cmd) (toks : List String) (w : Seen) : List (String × Bool) :=
         match cmds, toks with
         | c :: cs, tok :: ts =>
-          let cont (entered returned asked running : List Nat) (sdReq nilSeen : Bool) (cancelled : List Nat)
-              (inflight : List (Nat × Nat × Nat)) (dg : List (Nat × Nat × Bytes)) (extra : List (String × Bool)) :=
-            extra ++ walk cs ts entered returned asked running sdReq nilSeen cancelled inflight dg taskOfDg
+          let cont (w : Seen) (extra : List (String × Bool)) := extra ++ walk cs ts w
           let nilCheck : List (String × Bool) :=
-            [("nil_return_only_after_every_serve_returned", entered.all (returned.contains ·)),
-             ("nil_return_only_after_every_handler_finished", running.isEmpty && asked.isEmpty)]
+            [("nil_return_only_after_every_serve_returned", w.entered.all (w.returned.contains ·)),
+             ("nil_return_only_after_every_handler_finished", w.running.isEmpty && w.asked.isEmpty)]
           match c with
-          | .S i =>
+          | .S i cn =>
             if tok == "S=parked" then
-              cont (i :: entered) returned asked running sdReq nilSeen cancelled inflight dg
-                [("serve_after_shutdown_returns_ErrServerShutdown", !sdReq)]
+              cont { w with entered := i :: w.entered, connOf := (i, cn) :: w.connOf }
+                [("serve_after_shutdown_returns_ErrServerShutdown", !w.sdReq)]
             else if tok == "S=shutdown" then
-              cont entered returned asked running sdReq nilSeen cancelled inflight dg
-                [("ErrServerShutdown_only_after_shutdown_requested", sdReq)]
-            else cont entered returned asked running sdReq nilSeen cancelled inflight dg
-                [("serve_start_observation", tok == "S=noop")]
-          | .D i peer d =>
+              cont w [("ErrServerShutdown_only_after_shutdown_requested", w.sdReq)]
+            else cont w [("serve_start_observation", tok == "S=noop")]
+          | .D cn peer d =>
             if tok == "D=asked" then
-              cont entered returned (dg.length :: asked) running sdReq nilSeen cancelled inflight (dg ++ [(i, peer, d)]) []
-            else cont entered returned asked running sdReq nilSeen cancelled inflight dg []
+              cont { w with asked := w.dg.length :: w.asked, dg := w.dg ++ [((w.readersOn cn).headD 0, cn, peer, d)] }
+                [("datagram_goes_to_the_one_reader", (w.readersOn cn).length == 1)]
+            else cont w []
           | .d t =>
             if tok.startsWith "d=handler:" || tok == "d=dropped" then
-              (match dg[t]? with
-               | some (i, peer, d) =>
+              (match w.dg[t]? with
+               | some (i, cn, peer, d) =>
                  let fate := classify md5 cfg peer d
                  let (shouldHandle, key, expectObs) := match fate with
-                   | .handle (p, id) pk => (!(inflight.contains (i, p, id.toNat)), (i, p, id.toNat), "d=" ++ handlerObs p pk i)
+                   | .handle (p, id) pk => (!(w.inflight.contains (i, p, id.toNat)), (i, p, id.toNat), "d=" ++ handlerObs p pk cn)
                    | _ => (false, (0, 0, 0), "")
                  let handled := tok.startsWith "d=handler:"
-                 cont entered returned (asked.erase t) (if handled then t :: running else running) sdReq nilSeen cancelled
-                   (if handled then key :: inflight else inflight) dg
+                 cont { w with asked := w.asked.erase t, running := if handled then t :: w.running else w.running,
+                               inflight := if handled then key :: w.inflight else w.inflight }
                    [("handler_invoked_iff_secret_authentic_parses_and_not_in_flight", handled == shouldHandle),
                     ("request_carries_packet_secret_addresses_context", !handled || !shouldHandle || tok == expectObs),
-                    ("no_handler_starts_after_nil_return", !(handled && nilSeen))]
-               | none => cont entered returned asked running sdReq nilSeen cancelled inflight dg [("task_known", false)])
-            else cont entered returned asked running sdReq nilSeen cancelled inflight dg []
+                    ("no_handler_starts_after_nil_return", !(handled && w.nilSeen))]
+               | none => cont w [("task_known", false)])
+            else cont w []
           | .F t code =>
             if tok.startsWith "F=done" then
-              (match dg[t]? with
-               | some (i, peer, d) =>
+              (match w.dg[t]? with
+               | some (i, cn, peer, d) =>
                  let key := match classify md5 cfg peer d with
                    | .handle (p, id) _ => (i, p, id.toNat)
                    | _ => (0, 0, 0)
                  let isReply := Rfc.encClass code == .hashReqAuth
                  let parts := tok.splitOn ":"
-                 cont entered returned asked (running.erase t) sdReq nilSeen cancelled (inflight.erase key) dg
+                 cont { w with running := w.running.erase t, inflight := w.inflight.erase key }
                    [("reply_to_source_on_receiving_socket_with_valid_authenticator",
-                      !isReply || parts == ["F=done", s!"{i}>peer{peer}", s!"conn{i}", "auth=true", s!"code={code}"])]
-               | none => cont entered returned asked running sdReq nilSeen cancelled inflight dg [("task_known", false)])
-            else cont entered returned asked running sdReq nilSeen cancelled inflight dg []
+                      !isReply || parts == ["F=done", s!"{cn}>peer{peer}", s!"conn{cn}", "auth=true", s!"code={code}"])]
+               | none => cont w [("task_known", false)])
+            else cont w []
           | .X _ =>
-            if tok == "X=parked" then cont entered returned asked running true nilSeen cancelled inflight dg []
-            else if tok == "X=nil" then cont entered returned asked running true true cancelled inflight dg nilCheck
-            else cont entered returned asked running sdReq nilSeen cancelled inflight dg []
-          | .C j =>
-            cont entered returned asked running sdReq nilSeen (if tok == "C=ok" then j :: cancelled else cancelled) inflight dg []
+            if tok == "X=parked" then cont { w with sdReq := true } []
+            else if tok == "X=nil" then cont { w with sdReq := true, nilSeen := true } nilCheck
+            else cont w []
+          | .C j => cont (if tok == "C=ok" then { w with cancelled := j :: w.cancelled } else w) []
           | .W j =>
-            if tok == "W=nil" then cont entered returned asked running sdReq true cancelled inflight dg nilCheck
-            else if tok == "W=ctx" then
-              cont entered returned asked running sdReq nilSeen cancelled inflight dg
-                [("context_error_only_if_context_ended", cancelled.contains j)]
-            else cont entered returned asked running sdReq nilSeen cancelled inflight dg []
-          | .e i =>
-            if tok == "e=noop" then cont entered returned asked running sdReq nilSeen cancelled inflight dg []
-            else cont entered (i :: returned) asked running sdReq nilSeen cancelled inflight dg
-                [("running_serve_returns_ErrServerShutdown", tok == "e=shutdown")]
+            if tok == "W=nil" then cont { w with nilSeen := true } nilCheck
+            else if tok == "W=ctx" then cont w [("context_error_only_if_context_ended", w.cancelled.contains j)]
+            else cont w []
+          | .e cn =>
+            if tok == "e=noop" then cont w []
+            else
+              let rs := w.readersOn cn
+              cont { w with returned := rs ++ w.returned, reading := w.reading.filter (!rs.contains ·) }
+                [("running_serve_returns_ErrServerShutdown", tok == "e=" ++ "+".intercalate (rs.map fun _ => "shutdown"))]
+          | .f cn _ =>
+            if tok == "f=noop" || tok == "f=retry" then
+              cont w [("read_failure_after_shutdown_returns_ErrServerShutdown", !(tok == "f=retry" && w.sdReq))]
+            else
+              (match atServe tok with
+               | some i =>
+                 cont { w with returned := i :: w.returned, reading := w.reading.erase i }
+                   [("read_failure_after_shutdown_returns_ErrServerShutdown", !w.sdReq || tok.startsWith "f=shutdown@"),
+                    ("ErrServerShutdown_only_after_shutdown_requested", w.sdReq || !tok.startsWith "f=shutdown@"),
+                    ("read_failure_hits_a_reader_of_that_conn", (w.readersOn cn).contains i)]
+               | none => cont w [("read_failure_observation", false)])
           | .s i =>
-            if tok == "s=shutdown" then cont entered (i :: returned) asked running sdReq nilSeen cancelled inflight dg []
-            else cont entered returned asked running sdReq nilSeen cancelled inflight dg []
-          | .Z =>
-            cont entered returned asked running sdReq nilSeen cancelled inflight dg
-              [("no_deadlock_everything_returns_and_listeners_closed", tok == "Z=clean")]
-          | .x _ => cont entered returned asked running sdReq nilSeen cancelled inflight dg []
+            if tok == "s=shutdown" then cont { w with returned := i :: w.returned } []
+            else if tok == "s=reading" then cont { w with reading := i :: w.reading } []
+            else cont w []
+          | .Z => cont w [("no_deadlock_everything_returns_and_listeners_closed", tok == "Z=clean")]
+          | .x _ => cont w []
         | [], _ => []
         | _ :: _, [] => [("one_observation_per_command", false)]
-      let clauses := walk cmds implToks [] [] [] [] false false [] [] [] 0
+      let clauses := walk cmds implToks {}
       mk impl model ([("no_panic", !bad)] ++ clauses)
     | _, _ => bad "scenario-args"
   | _ => bad "scenario-arity"
